@@ -853,7 +853,11 @@ func c01ScopeWalk(c *Ctx, r *Result) {
 		}
 	})
 	if loop == nil {
-		r.Undecide("R01h: the descent loop of %s (a loop stepping into the sub-definitions) was not found", key)
+		// the descent written as recursion: a helper that steps into the sub-definition by calling itself
+		if c01ScopeWalkRecursive(c, r, fn) {
+			return
+		}
+		r.Undecide("R01h: the descent of %s (a loop or a recursion stepping into the sub-definitions) was not found", key)
 		return
 	}
 	var header *ssa.BasicBlock
@@ -1147,4 +1151,111 @@ func c13PoolReleasedOnce(c *Ctx, r *Result, funcs []*ssa.Function) {
 		}
 	}
 	r.Extra["pool_release_functions_examined"] = n
+}
+
+// c01ScopeWalkRecursive: IsAllowed hands over to a helper that descends by calling itself. Every
+// return of the helper either passes on the result of the recursive call, or is taken directly on
+// the edge of a test for an exhausted path (a comparison with a length) or a missing step (the
+// failed comma-ok of a lookup with a non-constant key).
+func c01ScopeWalkRecursive(c *Ctx, r *Result, entry *ssa.Function) bool {
+	var helper *ssa.Function
+	for h := range staticCalleesIn(c, entry) {
+		rec, steps := false, false
+		allInstrs(h, func(in ssa.Instruction) {
+			if call, ok := in.(*ssa.Call); ok && call.Call.StaticCallee() == h {
+				rec = true
+			}
+			if ta, ok := in.(*ssa.TypeAssert); ok {
+				if _, isMap := ta.AssertedType.Underlying().(*types.Map); isMap {
+					steps = true
+				}
+			}
+		})
+		if rec && steps {
+			helper = h
+		}
+	}
+	if helper == nil {
+		return false
+	}
+	key := c.FuncKey(helper)
+	// the entry returns what the helper returns
+	var bad []string
+	var badPos token.Pos
+	n := 0
+	for _, rv := range returnedValues(entry, 0) {
+		call, ok := unspill(rv).(*ssa.Call)
+		if !ok || call.Call.StaticCallee() != helper {
+			bad = append(bad, c.FuncKey(entry)+" returns a value that is not the result of the descent")
+			badPos = entry.Pos()
+		}
+	}
+	isLenCmp := func(v ssa.Value) bool {
+		bo, ok := v.(*ssa.BinOp)
+		if !ok {
+			return false
+		}
+		switch bo.Op {
+		case token.LSS, token.LEQ, token.GTR, token.GEQ, token.EQL, token.NEQ:
+		default:
+			return false
+		}
+		return termOf(bo.X).isLen() || termOf(bo.Y).isLen()
+	}
+	isStepMiss := func(v ssa.Value, succIdx int) bool {
+		neg := false
+		if u, ok := v.(*ssa.UnOp); ok && u.Op == token.NOT {
+			v, neg = u.X, true
+		}
+		e, ok := v.(*ssa.Extract)
+		if !ok || e.Index != 1 {
+			return false
+		}
+		lk, ok := e.Tuple.(*ssa.Lookup)
+		if !ok {
+			return false
+		}
+		if _, isConst := lk.Index.(*ssa.Const); isConst {
+			return false
+		}
+		return (succIdx == 1) != neg
+	}
+	allInstrs(helper, func(in ssa.Instruction) {
+		ret, ok := in.(*ssa.Return)
+		if !ok || in.Block() == helper.Recover || len(ret.Results) == 0 {
+			return
+		}
+		n++
+		if call, isCall := unspill(ret.Results[0]).(*ssa.Call); isCall && call.Call.StaticCallee() == helper {
+			return // the answer of the deeper level
+		}
+		b := in.Block()
+		okEdge := false
+		if len(b.Preds) == 1 {
+			p := b.Preds[0]
+			if ifi, isIf := p.Instrs[len(p.Instrs)-1].(*ssa.If); isIf {
+				idx := 0
+				if p.Succs[1] == b {
+					idx = 1
+				}
+				okEdge = isLenCmp(ifi.Cond) || isStepMiss(ifi.Cond, idx)
+			}
+		}
+		if !okEdge {
+			bad = append(bad, "the descent returns at "+c.Pos(ret.Pos())+" for a reason other than 'path exhausted' or 'no entry for the next step'")
+			if !badPos.IsValid() {
+				badPos = ret.Pos()
+			}
+		}
+	})
+	site := c.FuncKey(entry) + "#walk"
+	if len(bad) > 0 {
+		r.Instance("R01h", site, c.Pos(badPos), "finding", strings.Join(bad, "; "), true)
+		r.Report(Finding{Rule: "R01h", Site: site, Pos: c.Pos(badPos),
+			Msg: key + ": " + strings.Join(bad, "; ") + " — a broader definition then decides although a more specific one exists ({\"\": true, \"data.write\": false} allows data.write): rules whose scope is denied fire, and their suppression lists take effect"})
+	} else {
+		r.Instance("R01h", site, c.Pos(helper.Pos()), "ok", fmt.Sprintf("recursive descent in %s: %d returns, each the deeper level's answer or taken on an exhausted path / a missing step", key, n), true)
+	}
+	r.Floor("R01h", n, 2)
+	return true
 }
